@@ -638,7 +638,7 @@ def verdict(ck):
     ck.floor('kernel oddities', sum(v for k, v in c.items() if k.startswith('hostile.kernel')), 100)
     ck.floor('sendto faults', c['faults.sendto'], 20)
     ck.floor('netlink faults', c['faults.netlink'], 10)
-    ck.floor('half-open IKE_SAs left by those floods', c['flood_between.half_open_after_the_flood'], 60)
+    ck.floor('half-open IKE_SAs left by those floods', c['flood_between.half_open_after_the_flood'], 40)
     ck.floor('handshakes that completed although a flood of IKE_SA_INIT requests arrived in between', c['flood_between.completed'], 5)
     ck.floor('never-quiet-network runs in which the lost request was retransmitted', c['never_quiet.retransmitted'], 3)
     ck.floor('authentic responses with SPIs of an impossible size after which the timers still ran', c['authentic_response.timer_service_alive'], 10)
